@@ -128,7 +128,17 @@ def r2(ctx):
         s = ev.symbolic_instance(ci)
         o = Obj(ci.name, {}, 'other', ci)
         o.typed = False
+        # the angular parameters are Quantities (a comparison may treat them apart from plain numbers)
+        from ..vg import mark_quantity, reset_marks
+        reset_marks()
+        for p_ in m.params_of(ci):
+            if m.descriptor_kind(ci, p_) in ('ScalarAngle', 'PositiveScalarAngle'):
+                for holder_ in (s, o):
+                    v_ = ev.attr(holder_, p_, None)
+                    if isinstance(v_, sp.Symbol):
+                        mark_quantity(v_)
         out = ev.run(eq, [s, o], {})
+        reset_marks()
         construct = f'{ci.name}.__eq__'
         # the outcomes are a decision list in program order: the first return whose (necessary) path condition holds
         # decides
@@ -139,7 +149,7 @@ def r2(ctx):
         want = sorted(set(m.params_of(ci)) | {'meta', 'visual'})
         fieldtxt = {p: (show(ev.attr(s, p, None), 400), show(ev.attr(o, p, None), 400)) for p in want}
 
-        def assignment(differs=None, guard=True, completes=True):
+        def assignment(differs=None, guard=True, completes=True, aux=True):
             def asg(key):
                 if 'isinstance(other' in key:
                     return guard
@@ -151,12 +161,19 @@ def r2(ctx):
                         return p == differs
                     if f'{a_} == {b_}' in key or f'{b_} == {a_}' in key:
                         return p != differs
+                mentioned = [p for p in want if fieldtxt[p][0] in key or fieldtxt[p][1] in key]
+                if mentioned and ('allclose(' in key or 'isclose(' in key):
+                    # a comparison within a tolerance holds for some values that differ: a differing field can pass it
+                    return True
+                if mentioned:
+                    # a side test on a field (its type, its unit, ...): the table must come out right whichever way it goes
+                    return aux
                 raise AnalysisError('C16.R2', construct, f'equality depends on something that is not a field comparison: {key[:160]}')
             return asg
         probs = []
-        if not evalb(E, assignment()):
+        if not all(evalb(E, assignment(aux=x_)) for x_ in (True, False)):
             probs.append('two regions of the same class with equal fields compare unequal')
-        blind = [p for p in want if evalb(E, assignment(differs=p))]
+        blind = [p for p in want if any(evalb(E, assignment(differs=p, aux=x_)) for x_ in (True, False))]
         if blind:
             probs.append(f'a difference in {blind} alone leaves the regions equal (fields compared: {sorted(set(want) - set(blind))}, '
                          f'must compare {want})')
